@@ -89,7 +89,9 @@ class Base:
             return VOpt(z3.Bool(name + "?none"), inner)
         if kind.startswith("list[") and kind.endswith("]"):
             ek = kind[5:-1]
-            return VList(z3.Int(name + "#len"), self.mk_arr(ek, name), self.elem_of(ek))
+            ln = z3.Int(name + "#len")
+            self.pc.append(ln >= 0)
+            return VList(ln, self.mk_arr(ek, name), self.elem_of(ek))
         if kind == "none":
             return None
         raise GenError("unknown kind %r" % kind)
